@@ -535,6 +535,57 @@ def r28(body):
     return _sub(r"\b([A-Z][A-Z0-9_]+)\s*\.\s*load\s*\(\s*Ordering\s*::\s*Relaxed\s*\)", lambda m: "vx_atomic_load_%s()" % m.group(1), body)
 
 
+@rule("R41", "E.map(|P| B) on an Option receiver -> match E { Some(P) => Some(B), None => None }   [Option::map is `match self { Some(x) => Some(f(x)), None => None }`; the closure is inlined; same side condition as R27; opt-in because iterators and Result have a `map` too]")
+def r41(body):
+    return _option_closure_method(body, "map", 1, lambda e, a, p, b: "match %s { Some(%s) => Some(%s), None => None }" % (e, p, b))
+
+
+@rule("R38", "X.into().into() -> vx_into_literal(X)   [the two generic conversions `Into<Cow<'static, str>>` then `From<Cow<'static, str>> for BorrowedOrArc` are one trusted helper whose body is the original expression; its only contract names the text of the result `lit_text(X)`]")
+def r38(body):
+    return _sub(r"\b(\w+)\s*\.\s*into\s*\(\s*\)\s*\.\s*into\s*\(\s*\)", lambda m: "vx_into_literal(%s)" % m.group(1), body)
+
+
+@rule("R39", "X.replace(&['\\r', '\\n'][..], \"\") and X.to_owned().replace(&['\\r', '\\n'][..], \"\") -> vx_str_strip_crlf(X)   [String building outside the Verus subset: trusted helper, body = the original expression, no contract]")
+def r39(body):
+    return _sub(r"\b(\w+)(?:\s*\.\s*to_owned\s*\(\s*\))?\s*\.\s*replace\s*\(\s*&\s*\[\s*'\\r'\s*,\s*'\\n'\s*\]\s*\[\s*\.\.\s*\]\s*,\s*\"\"\s*\)", lambda m: "vx_str_strip_crlf(%s)" % m.group(1), body)
+
+
+@rule("R40", "the statement run `let mut line_iter = S.lines(); ... let continued_line = ...;` of Error::new_from_span (it computes only the two displayed text fields from the span) -> let (start_line, continued_line) = vx_span_error_texts(S);   [String / iterator-adapter code outside the Verus subset: trusted helper without a contract; side condition: the run defines no other name that is used after it]")
+def r40(body):
+    m = re.search(r"let\s+mut\s+line_iter\s*=\s*(\w+)\s*\.\s*lines\s*\(\s*\)\s*;", body)
+    if not m:
+        return body, 0
+    k = re.compile(r"let\s+continued_line\s*=\s*").search(body, m.end())
+    if not k:
+        return body, 0
+    # end of the `let continued_line = ...;` statement: the first `;` at nesting depth 0
+    depth, j, in_str = 0, k.end(), False
+    while j < len(body):
+        ch = body[j]
+        if in_str:
+            if ch == '\\':
+                j += 1
+            elif ch == '"':
+                in_str = False
+        elif ch == '"':
+            in_str = True
+        elif ch in "([{":
+            depth += 1
+        elif ch in ")]}":
+            depth -= 1
+        elif ch == ';' and depth == 0:
+            break
+        j += 1
+    if j >= len(body):
+        return body, 0
+    run = body[m.start():j + 1]
+    rest = body[j + 1:]
+    defined = set(re.findall(r"\blet\s+(?:mut\s+)?(\w+)", run)) - {"start_line", "continued_line"}
+    if any(re.search(r"\b%s\b" % re.escape(d), rest) for d in defined):
+        return body, 0
+    return body[:m.start()] + "let (start_line, continued_line) = vx_span_error_texts(%s);" % m.group(1) + rest, 1
+
+
 @rule("R29", "E.map_or(D, |P| B) -> match E { Some(P) => B, None => D }   [Option::map_or is `match self { Some(t) => f(t), None => default }`; closure inlined; same side condition; D is evaluated eagerly in the original and must be call-free here (literal, path, or a constructor applied to such)]")
 def r29(body):
     def build(e, a, p, b):
@@ -646,7 +697,7 @@ def r36(body):
 
 
 # rules that are purely syntactic proof devices are applied only when a unit asks for them
-OPT_IN = {"R9", "R9b", "R15", "R17", "R21", "R22", "R24", "R25", "R25b", "R26", "R28", "R30", "R31", "R32", "R33"}
+OPT_IN = {"R9", "R9b", "R15", "R17", "R21", "R22", "R24", "R25", "R25b", "R26", "R28", "R30", "R31", "R32", "R33", "R38", "R39", "R40", "R41"}
 # std-definition rules that may fire in any extracted function without being declared by the unit (they are logged)
 FREE = {"R27", "R29", "R35", "R36"}
 
